@@ -142,7 +142,7 @@ func (w *World) src6(c *Client6) net.UDPAddr {
 	return net.UDPAddr{IP: c.LL, Port: 546, Zone: w.ifName(c.Link)}
 }
 
-func (w *World) send6(c *Client6, m *dhcpv6.Message, kind string) *DG {
+func (w *World) send6(c *Client6, m *dhcpv6.Message, kind string, meta ...interface{}) *DG {
 	li := w.listenerFor(true, c.Link)
 	if li < 0 {
 		return nil
@@ -153,7 +153,11 @@ func (w *World) send6(c *Client6, m *dhcpv6.Message, kind string) *DG {
 	if len(c.Relays) > 0 {
 		k += fmt.Sprintf(" relayed x%d", len(c.Relays))
 	}
-	return w.Send(li, out.ToBytes(), w.src6(c), c.Link, k, c.ID, nil)
+	var mt interface{}
+	if len(meta) > 0 {
+		mt = meta[0]
+	}
+	return w.Send(li, out.ToBytes(), w.src6(c), c.Link, k, c.ID, mt)
 }
 
 func drawRelays(t *simrt.Tape, depth int, c *Client6) []RelayLayer {
